@@ -12,7 +12,10 @@ OTHER_ENGINE = b"\x80\x00\x1f\x88\x80otherengine"
 STRUCT = ["flags0_plain", "flags0_plain_keepdigest", "flags4_plain", "auth_only_plain", "empty_digest", "short_digest", "zero_digest", "garbage_digest",
           "foreign_key_sign", "foreign_user", "foreign_engine", "wrong_localisation", "priv_flag_plain", "nopriv_flag_cipher", "flags2_cipher", "flags6_cipher",
           "report_unauth_evil", "report_unauth_stats", "report_stale_mac", "digest_into_zero_run", "truncate_tail", "swap_pdu_keep_mac", "replay_other_reqid",
-          "flags2_malleate", "flags6_malleate", "flags3_malleate_keepdigest"]
+          "flags2_malleate", "flags6_malleate", "flags3_malleate_keepdigest",
+          # unauthenticated messages whose PDU carries an error-status: the lazily decoded PDU raises on first access, which must not
+          # pre-empt the security-level check (noSuchName is what walks treat as "end of the subtree")
+          "flags0_plain_err2", "flags0_plain_err5", "report_unauth_err2", "auth_only_plain_err2", "flags0_plain_err2_novb"]
 
 
 def result_repr(op, r):
@@ -54,8 +57,8 @@ def forge(kind, ag, u, xu, req, authentic: bytes, bit=None):
     lvl = req["flags"] & 3
     priv = bool(lvl & 2)
 
-    def pdu(ptype=RESPONSE, vbs=None, reqid=None):
-        return build_pdu(ptype, req["reqid"] if reqid is None else reqid, 0, 0, evil_vbs if vbs is None else vbs)
+    def pdu(ptype=RESPONSE, vbs=None, reqid=None, es=0, ei=0):
+        return build_pdu(ptype, req["reqid"] if reqid is None else reqid, es, ei, evil_vbs if vbs is None else vbs)
 
     def scoped(p):
         return build_scoped(req["ctxengine"], req["ctxname"], p)
@@ -67,7 +70,7 @@ def forge(kind, ag, u, xu, req, authentic: bytes, bit=None):
         m0 = msg(flags, b"\0" * 12, payload, user, engine, salt)
         mac = hmac96(HNAME[u.auth[0]], key, m0)
         return msg(flags, mac, payload, user, engine, salt)
-    S = lambda **kw: dict(dict(auth=True, priv=priv, user="u", form="enc" if priv else "plain", ekey="Kp" if priv else "-", ptype="Response", vbs="evil", mac="stale", reqid=1), **kw)
+    S = lambda **kw: dict(dict(auth=True, priv=priv, user="u", form="enc" if priv else "plain", ekey="Kp" if priv else "-", ptype="Response", vbs="evil", mac="stale", reqid=1, es="none"), **kw)
     a = parse_v3(authentic, decrypt=ag._decrypt)
     kx = xu.kauth(ag.engine)
     if kind == "bitflip":
@@ -78,6 +81,13 @@ def forge(kind, ag, u, xu, req, authentic: bytes, bit=None):
         return msg(0, b"", scoped(pdu())), S(auth=False, priv=False, form="plain", ekey="-", mac="empty")
     if kind == "flags0_plain_keepdigest":
         return msg(0, a["auth"], scoped(pdu())), S(auth=False, priv=False, form="plain", ekey="-", mac="garbage")
+    if kind in ("flags0_plain_err2", "flags0_plain_err5", "flags0_plain_err2_novb"):
+        es = 5 if kind.endswith("err5") else 2
+        return msg(0, b"", scoped(pdu(es=es, ei=1, vbs=[] if kind.endswith("novb") else None))), S(auth=False, priv=False, form="plain", ekey="-", mac="empty", es="other" if es == 5 else "noSuchName")
+    if kind == "report_unauth_err2":
+        return msg(0, b"", scoped(pdu(REPORT, es=2, ei=1))), S(auth=False, priv=False, form="plain", ekey="-", mac="empty", ptype="Report", es="noSuchName")
+    if kind == "auth_only_plain_err2":
+        return msg(1, a["auth"], scoped(pdu(es=2, ei=1))), S(priv=False, form="plain", ekey="-", mac="stale", es="noSuchName")
     if kind == "flags4_plain":
         return msg(4, b"", scoped(pdu())), S(auth=False, priv=False, form="plain", ekey="-", mac="empty")
     if kind == "auth_only_plain":          # privacy credentials: keep auth flag, drop priv flag, plaintext, stale MAC
@@ -200,10 +210,76 @@ async def run_family(level, h, op, attacks, zero_value=False):
     return out, authentic_len
 
 
+async def run_overlap(level, h, attacks):
+    """Two requests in flight on one client: the authentic response to the first is processed, then the forged response to the
+    second - before any other request is encoded.  Per-message state kept per engine (or per client) goes stale exactly here."""
+    from puresnmp import Client
+    sc = dict(level=level, hash=h, authpw=b"maplesyrup", privpw=b"privsecret")
+    u = drv_usm.make_user(sc)
+    xu = User(b"mallory", (h, b"attacker-auth-pw"), ("verifstream", b"attacker-priv-pw"))
+    a_inst, b_inst = PFX + (1, 1, 0), PFX + (1, 2, 0)
+    ag = Agent({a_inst: enc_str(b"authentic"), b_inst: enc_int(7)}, users=[u], engine=ENGINE, boots=7, clock=lambda: 50000)
+    st = dict(attack=None, n=0, a_done=None, both=None, sym=None, reached=False)
+
+    async def sender(endpoint, packet, timeout=None, retries=None):
+        raw = ag.handle(bytes(packet))
+        req = ag.log[-1]
+        if not st["attack"] or req.get("engine") != ENGINE or req.get("verdict") != "ok":
+            return raw
+        st["n"] += 1
+        me = st["n"]
+        if me == 2:
+            st["both"].set()
+        await st["both"].wait()                 # both requests are on the wire
+        if me == 1:
+            return raw                           # authentic response to the first request
+        await st["a_done"].wait()                # ... fully processed by the client
+        forged, st["sym"] = forge(st["attack"], ag, u, xu, req, raw, None)
+        st["reached"] = True
+        return forged
+    import puresnmp.api.raw, puresnmp_plugins.security.usm  # noqa
+    out = []
+    with patched_clock(lambda: 50000):
+        c = Client("192.0.2.1", drv_usm.make_creds(sc), sender=sender)
+        base_b = result_repr("get", await c.get(OID(oidstr(b_inst))))
+        for kind in attacks:
+            st.update(attack=kind, n=0, a_done=asyncio.Event(), both=asyncio.Event(), sym=None, reached=False)
+
+            async def first():
+                try:
+                    return await c.get(OID(oidstr(a_inst)))
+                finally:
+                    st["a_done"].set()
+
+            async def second():
+                await asyncio.sleep(0)
+                return await c.get(OID(oidstr(b_inst)))
+            try:
+                with cpu_budget(5):
+                    ra, rb = await asyncio.gather(first(), second(), return_exceptions=True)
+                if isinstance(rb, BaseException):
+                    ret = dict(kind="exc", cls=exc_name(rb), same=False)
+                else:
+                    ret = dict(kind="result", cls="", same=result_repr("get", rb) == base_b)
+            except CpuBudget:
+                ret = dict(kind="hang", cls="CPU_BUDGET", same=False)
+            st.update(attack=None)
+            try:
+                ok = result_repr("get", await c.get(OID(oidstr(b_inst)))) == base_b
+            except Exception:  # noqa
+                ok = False
+            out.append(dict(scenario=dict(level=level, hash=h, op="get", attack=kind, bit=-1, overlap=True),
+                            events=[dict(e="attack", level=level, kind=kind, sym=st["sym"] or dict(bitflip=True), ret=ret, reached=st["reached"], usable_after=ok)]))
+    return out
+
+
 def run_families(fams):
     async def main():
         T = []
         for level, h, op, attacks, zero in fams:
+            if op == "overlap":
+                T.extend(await run_overlap(level, h, attacks))
+                continue
             t, _ = await run_family(level, h, op, attacks, zero)
             T.extend(t)
         return T
